@@ -251,7 +251,7 @@ int main(int argc, char **argv)
                 install_handlers();
                 std::string prop = arg(argc, argv, "--prop", p.prop.c_str());
                 g_cur_idx = p.idx;
-                alarm(prop == "C16" ? 600 : 60);
+                alarm(prop == "C16" ? 600 : 300);
                 Outcome o = check_plan(prop, p);
                 alarm(0);
                 printf("HASH %016llx\n", (unsigned long long)o.res.hash);
@@ -323,7 +323,11 @@ int main(int argc, char **argv)
                 }
                 Plan p = gen_plan(profile, seed, idx, engine_qcap());
                 g_in_run = 1;
-                alarm(prop == "C16" ? 600 : 30); // watchdog: a run normally takes milliseconds
+                // watchdog: a run normally takes milliseconds; marathons and giant worlds take seconds, more on a loaded machine
+                bool heavy_plan = p.buf_size > 65536;
+                for (auto &op : p.ops)
+                        heavy_plan |= op.kind == OP_PUMP && op.c * op.d > 5000;
+                alarm(prop == "C16" ? 600 : heavy_plan ? 300 : 30);
                 Outcome o = check_plan(prop, p);
                 alarm(0);
                 g_in_run = 0;
